@@ -232,13 +232,15 @@ class Ctx:
         cov = {
             "obligations": self.proof["obligations"],
             "discharged": self.proof["discharged"],
-            "checker_cmd": "cd lean && lake build UmapProps umapdrv && lake env lean .lake/audit/%s.lean  (#print axioms per theorem; source grep for sorry/axiom/native_decide)" % self.prop,
+            "checker_cmd": "cd lean && lake build UmapProps umapdrv srcdrv && lake env lean .lake/audit/%s.lean  (#print axioms per theorem; source grep for sorry/axiom/native_decide)" % self.prop,
             "trusted_base": [
                 "Lean 4.33 kernel; Mathlib v4.33",
                 "axioms allowed: propext, Classical.choice, Quot.sound (audited per theorem below)",
                 "hand-written model lean/UmapModel/*.lean tied to /repo by this run's correspondence (harness/props/%s.py) and by Generated/*.lean regenerated from the live package" % self.prop,
                 "Python harness, tolerances and generators; NumPy/SciPy/scikit-learn/numba primitives by contract",
-            ],
+            ] + (["kernel source text -> Lean translator (harness/translate.py): its output (Generated/*Src.lean) is proved equal to the "
+                  "model by the *_src theorems listed below and is executed against the Python functions (.py_func) on every run (srcdrv)"]
+                 if self.prop in ("C07", "C12", "C13", "C14") else []),
             "theorems": self.proof["theorems"],
             "axioms": self.proof["axioms"],
             "proof_broken": self.proof["broken"],
